@@ -4,7 +4,19 @@ import re
 
 from .common import *  # noqa
 from ..tables import AutomatTable
-from .c05 import machine, table, MU, MOD
+from .c05 import machine_raw as machine, MOD
+from ..tables import AutomatTable
+
+
+def table(run):
+    return AutomatTable(machine(run))
+
+
+def MU(run, name):
+    u = run.idx.find_method(machine(run), name)
+    if u is None:
+        raise AnchorVanished('_SocksMachine.%s' % name)
+    return u
 from .c01 import _resolve_name
 
 CMD = {'CONNECT': 0x01, 'RESOLVE': 0xF0, 'RESOLVE_PTR': 0xF1}
